@@ -631,7 +631,7 @@ fn main() {
     let max_heap: u64 = 16 << 20;
     let replay = arg("--replay-ops");
     let mut dist = Dist(BTreeMap::new());
-    if surf == "crossres" { bytes::crossres(&mut dist); }
+    if surf == "crossres" { bytes::crossres(&mut dist); bytes::fsread(&mut dist); }
     else if surf == "byteslimits" { bytes::limits(arg_u64("--max-alloc", 256 << 20) as i64, &mut dist); }
     else if surf == "bytes" { bytes::main(seed, hist, maxlen, replay, &mut dist); }
     else {
@@ -672,6 +672,7 @@ fn main() {
         }
     }
     for (k, v) in &dist.0 { println!("#DIST\t{}\t{}", k, v); }
+    bytes::FIXTURE.with(|f| { if !f.borrow().is_empty() { let _ = std::fs::remove_dir_all(&*f.borrow()); } });
 }
 #[cfg(not(vbxq_aelys_lang_verif))]
 fn main() { eprintln!("built without hooks"); std::process::exit(2); }
